@@ -156,6 +156,17 @@ def run(ctx):
     if not (ret_ph and seen_above > 0):
         res.add(Finding('C20', 'C20.a', 'R-DOM', icpt.file, icpt.qualname, icpt.node.lineno, 'above-limit branch',
                         'a file above the limit is not answered with the documented placeholder result'))
+    # ... and only then: a file within the limit that cannot be read is an error of the capture (the recording is discarded), never
+    # silently "a file above the limit" - replay would hand the placeholder text to code that recorded real bytes
+    from .common import guards_of as _guards_of20
+    ph_sites = _guards_of20(icpt.node, lambda x: (isinstance(x, ast.Call) and self_attr(x.func) == ph.name) if ph is not icpt else
+                            (isinstance(x, ast.Return) and isinstance(x.value, ast.Dict)))
+    in_handler = [(s_, c_) for s_, c_ in ph_sites if any(isinstance(t_, ast.Name) and t_.id.startswith('<handler') for t_, _p in c_)]
+    ca.instance('the placeholder is produced for the size verdict only (not as the answer to a failed read)', icpt.qualname, bool(ph_sites) and not in_handler)
+    for s_, c_ in in_handler[:1]:
+        res.add(Finding('C20', 'C20.a', 'R-DOM', icpt.file, icpt.qualname, s_.lineno, norm(s_)[:80],
+                        'a failure while reading a file within the limit is answered with the above-limit placeholder: the recording is kept with the '
+                        'placeholder text in place of the bytes, and replay restores that text as the file content'))
     # strictness, units, sentinel inside the predicate
     cmps = [n for n in ast.walk(above.node) if isinstance(n, ast.Compare) and any(self_attr(x) == 'intercepted_size_limit' for x in ast.walk(n))
             and not isinstance(n.ops[0], (ast.Is, ast.IsNot))]
@@ -559,4 +570,6 @@ def run(ctx):
     # ---- C20.g an explicit limit reaches the limit option: constructors of the handlers keep the base parameter order
     from . import common as _cm20
     _cm20.ctor_prefix_clause(ctx, res, 'C20', 'C20.g', fi.name, floor=2)
+    from . import common as _r7
+    _r7.import_clauses(ctx, res, 'C02', ['C02.k'], 'C20', 'C20.h', 'R-SIBLING', 'public decorators hand the data handler to the shared implementation', floor=2)
     return res
